@@ -363,4 +363,166 @@ theorem fill_population (solved : Bool) (ch0 : Option (Org W)) (p p' : Pop W) (s
   intro i s hi
   refine ⟨sortSpecies s, by simp [hi], rfl, C10.sortOrgsDesc_perm s.orgs⟩
 
+/-! ### C02's invariants survive the call -/
+
+theorem flatMap_map_perm {α β : Type} (f : α → List β) (g : α → α) (hfg : ∀ a, (f (g a)).Perm (f a)) (l : List α) :
+    ((l.map g).flatMap f).Perm (l.flatMap f) := by
+  induction l with
+  | nil => exact List.Perm.refl _
+  | cons a l ih =>
+    simp only [List.map_cons, List.flatMap_cons]
+    exact (hfg a).append ih
+
+/-- **C19 / C02 (recording a generation keeps the population invariant).** C02's invariants that do not depend on the
+    ORDER inside a species survive `FillPopulationStatistics`: the allocation discipline (`UidInv`: every listed organism
+    is in the population's organism list, ids below the counter), unique species ids not above `LastSpecies`
+    (`SpIdInv`), no empty species, the same organism list, the same species ids / ages / novel flags in the same order;
+    the species' member ids and genome ids are the same up to a permutation (so "each organism is listed by exactly
+    one species" and "genome ids unique" are preserved).  Hence `NextEpoch` may follow (`C02.nextEpoch_popInv` needs
+    `UidInv` and `SpIdInv` only).  The one order-SENSITIVE clause, `organisms = orgUids species`, becomes a permutation
+    (`fill_breaks_listing_order` below shows that equality itself is lost - also in the Go code, harmlessly). -/
+theorem fill_preserves_popInv (solved : Bool) (ch0 : Option (Org W)) (p p' : Pop W) (st : GenStats W)
+    (h : fillFrom solved ch0 p = .ok (st, p')) (hu : C02.UidInv p) (hs : C02.SpIdInv p) :
+    C02.UidInv p' ∧ C02.SpIdInv p' ∧ (∀ s ∈ p'.species, s.orgs ≠ []) ∧ p'.organisms = p.organisms ∧
+    p'.species.map C02.skey = p.species.map C02.skey ∧
+    (C02.orgUids p'.species).Perm (C02.orgUids p.species) ∧
+    (C02.genomeIds p'.species).Perm (C02.genomeIds p.species) := by
+  obtain ⟨hne, hp', _⟩ := fillFrom_spec solved ch0 p p' st h
+  subst hp'
+  have hkeys : (p.species.map sortSpecies).map C02.skey = p.species.map C02.skey := by
+    simp [List.map_map, Function.comp_def, C02.skey, sortSpecies]
+  have hids : (p.species.map sortSpecies).map (·.id) = p.species.map (·.id) := by
+    simp [List.map_map, Function.comp_def, sortSpecies]
+  have huids : (C02.orgUids (p.species.map sortSpecies)).Perm (C02.orgUids p.species) := by
+    unfold C02.orgUids
+    exact flatMap_map_perm _ sortSpecies (fun s => (C10.sortOrgsDesc_perm s.orgs).map _) p.species
+  have hgids : (C02.genomeIds (p.species.map sortSpecies)).Perm (C02.genomeIds p.species) := by
+    unfold C02.genomeIds
+    exact flatMap_map_perm _ sortSpecies (fun s => (C10.sortOrgsDesc_perm s.orgs).map _) p.species
+  refine ⟨⟨?_, hu.below⟩, ⟨?_, ?_⟩, ?_, rfl, hkeys, huids, hgids⟩
+  · intro u hu'
+    exact hu.listed u (huids.mem_iff.mp hu')
+  · show ((p.species.map sortSpecies).map (·.id)).Nodup
+    rw [hids]; exact hs.nodup
+  · intro s hs'
+    obtain ⟨s0, hs0, rfl⟩ := List.mem_map.mp hs'
+    exact hs.le s0 hs0
+  · intro s hs'
+    obtain ⟨s0, hs0, rfl⟩ := List.mem_map.mp hs'
+    exact sortOrgsDesc_ne_nil s0.orgs (hne s0 hs0)
+
+/-! ### `Generation.Average`, `Generation.ChampionComplexity`, and how a `Trial` reads the record -/
+
+/-- **C19 (`Generation.Average`).** The three values are the means (`Floats.Mean`: `none` = NaN for a population
+    without species) of the recorded Fitness, Age and Complexity series - the `fMean` of Props/C19 (`mean_eq` in
+    Props/C19Exact.lean: = Σ x / n in exact arithmetic) - and `Trial.Average` lists exactly these per generation. -/
+theorem generationAverage_eq (solved : Bool) (g : GenStats W) (p' : Pop W) :
+    generationAverage g = (Stats.fMean g.fitness, Stats.fMean g.age, Stats.fMean g.complexity) ∧
+    Stats.average ⟨[toGen solved g p']⟩ = ([(generationAverage g).1], [(generationAverage g).2.1], [(generationAverage g).2.2]) :=
+  ⟨rfl, rfl⟩
+
+/-- **C19 (complexity).** The complexity of an organism whose genome `Genesis` accepts is the number of nodes plus the
+    number of links of the expressed network: genome nodes + enabled modules + enabled genes + the module wires
+    (C11's `genesis_counts`); `math.MaxInt` otherwise.  `ChampionComplexity` is the champion's complexity, `math.MaxInt`
+    without a champion. -/
+theorem complexity_spec (g : GenStats W) :
+    (∀ (o : Org W) (net : Net W), Genesis.genesis o.genome o.genome.id = .ok net →
+        organismComplexity o = ((Genesis.specNodeCount o.genome + Genesis.specLinkCount o.genome : Nat) : Int)) ∧
+    (∀ (o : Org W) (e : Stop), Genesis.genesis o.genome o.genome.id = .error e → organismComplexity o = maxInt) ∧
+    (g.champion = none → championComplexity g = maxInt) ∧
+    (∀ c, g.champion = some c → championComplexity g = organismComplexity c) := by
+  refine ⟨?_, ?_, ?_, ?_⟩
+  · intro o net hnet
+    have := (C11.genesis_counts o.genome o.genome.id net hnet).2.2
+    simp only [organismComplexity, hnet, this]
+  · intro o e he
+    simp only [organismComplexity, he]
+  · intro hc; simp [championComplexity, hc]
+  · intro c hc; simp [championComplexity, hc]
+
+/-- **C19 (what a trial reads).** Through a one-generation trial the record yields: Diversity = the number of species,
+    the champion's fitness (0 without champion), the champion's complexity (0 when it is `math.MaxInt`). -/
+theorem trial_reads_record (solved : Bool) (g : GenStats W) (p' : Pop W) :
+    Stats.diversity ⟨[toGen solved g p']⟩ = [ofInt (g.diversity : Int)] ∧
+    Stats.championsFitness ⟨[toGen solved g p']⟩ = [match g.champion with | some c => c.fitness | none => zero] := by
+  refine ⟨rfl, ?_⟩
+  cases hc : g.champion <;> simp [Stats.championsFitness, toGen, hc]
+
+/-! ## non-vacuity and observations (exact integer scalar) -/
+section NonVacuity
+open GoNeat.ExactInt
+attribute [local instance] intScalar
+
+def demoOrg (uid : Nat) (fit high : Int) : Org Int :=
+  { uid := uid, fitness := fit, genome := C02.tinyG uid, expectedOffspring := 0, generation := 0, originalFitness := 0,
+    highestFitness := high }
+
+def demoSpecies (id age : Int) (orgs : List (Org Int)) : Species Int :=
+  { id := id, age := age, maxFitnessEver := 0, expectedOffspring := 0, isNovel := false, orgs := orgs, ageOfLastImprovement := 0 }
+
+/-- three species; the bests of species 2 and 3 tie at the maximum 7 (the FIRST must win); inside species 2 the
+    fitness tie 7 = 7 is decided by the highest-fitness key; species 1 holds a negative value -/
+def demoPop : Pop Int :=
+  { species := [demoSpecies 1 3 [demoOrg 0 (-4) 0, demoOrg 1 5 0],
+                demoSpecies 2 1 [demoOrg 2 7 1, demoOrg 3 2 0, demoOrg 4 7 9],
+                demoSpecies 5 2 [demoOrg 5 7 0]],
+    organisms := [0, 1, 2, 3, 4, 5], lastSpecies := 5, highestFitness := 0, epochsHighestLastChanged := 0,
+    reg := { records := [], nextInn := 1, nextNode := 2 }, nextUid := 6 }
+
+/-- the hypotheses of the theorems hold for `demoPop` (no empty species, guard, invariants), and the record is the
+    expected one: Fitness 5,7,7; Age 3,1,2; Complexity 3 each (2 nodes + 1 link); champion = organism 4 (species 2, the
+    first of the two species attaining 7; inside it the member with the greater highest fitness); lists re-sorted -/
+example :
+    (match fillPopulationStatistics demoPop with
+     | .ok (st, p') =>
+       st.diversity == 3 && st.fitness == [5, 7, 7] && st.age == [3, 1, 2] && st.complexity == [3, 3, 3] &&
+       st.champion.map (·.uid) == some 4 && championComplexity st == 3 &&
+       st.fitness.any (fun f => lt (minInt64W : Int) f) &&
+       p'.species.map (fun s => s.orgs.map (·.uid)) == [[1, 0], [4, 2, 3], [5]] &&
+       generationAverage st == (some 6, some 2, some 3)
+     | .error _ => false) = true := by decide +kernel
+
+example : C08.StrictWeak Int ∧ C10.EqLaw Int := by
+  refine ⟨⟨?_, ?_, ?_⟩, ?_⟩
+  · intro a; simp [Scalar.lt, intScalar]
+  · intro a b c; simp only [Scalar.lt, intScalar, decide_eq_true_eq]; omega
+  · intro a b c; simp only [Scalar.lt, intScalar, decide_eq_true_eq]; omega
+  · intro a b; simp only [Scalar.eq, Scalar.lt, intScalar, decide_eq_true_eq, decide_eq_false_iff_not]; omega
+
+example : C02.UidInv demoPop ∧ C02.SpIdInv demoPop ∧ demoPop.organisms = C02.orgUids demoPop.species :=
+  ⟨⟨by decide, by decide⟩, ⟨by decide, by decide⟩, by decide⟩
+
+/-- **observation: the listing order.** Before the call `organisms` is the concatenation of the species' member ids
+    (C02's strongest form); after it the concatenation is only a permutation of `organisms` -/
+theorem fill_breaks_listing_order :
+    demoPop.organisms = C02.orgUids demoPop.species ∧
+    (match fillPopulationStatistics demoPop with
+     | .ok (_, p') => p'.organisms != C02.orgUids p'.species && (p'.organisms.isPerm (C02.orgUids p'.species))
+     | .error _ => false) = true := ⟨by decide, by decide +kernel⟩
+
+/-- every fitness at or below -2^63 = float64(math.MinInt64) -/
+def lowPop : Pop Int :=
+  { species := [demoSpecies 1 3 [demoOrg 0 (-9223372036854775808) 0, demoOrg 1 (-9223372036854775813) 0],
+                demoSpecies 2 1 [demoOrg 2 (-9223372036854775809) 0]],
+    organisms := [0, 1, 2], lastSpecies := 2, highestFitness := 0, epochsHighestLastChanged := 0,
+    reg := { records := [], nextInn := 1, nextNode := 2 }, nextUid := 3 }
+
+/-- **observation: below the guard.** With every fitness ≤ float64(math.MinInt64) the series are filled (species bests
+    -2^63 and -2^63-1) but NO champion is recorded and `ChampionComplexity` answers `math.MaxInt`; a trial then reads
+    champion fitness 0. -/
+theorem fill_below_guard_example :
+    (match fillPopulationStatistics lowPop with
+     | .ok (st, p') =>
+       st.fitness == [-9223372036854775808, -9223372036854775809] && st.champion.isNone &&
+       championComplexity st == maxInt && !st.fitness.any (fun f => lt (minInt64W : Int) f) &&
+       Stats.championsFitness ⟨[toGen false st p']⟩ == [0]
+     | .error _ => false) = true := by decide +kernel
+
+/-- an empty species makes the call stop (index panic) -/
+example : (match fillPopulationStatistics { demoPop with species := demoSpecies 9 1 [] :: demoPop.species } with
+           | .error (.error "panic:index") => true
+           | _ => false) = true := by decide +kernel
+
+end NonVacuity
+
 end GoNeat.C19
